@@ -81,7 +81,14 @@ def scenarios(draw):
                     extra.append(r2)
             sc["reads"] += extra
         k = src.int(2, 4)
-        sc["variant"] = {"dim": "bam", "k": k, "assign": [src.int(0, k - 1) for _ in sc["reads"]]}
+        sc["variant"] = {"dim": "bam", "k": k, "assign": [src.int(0, k - 1) for _ in sc["reads"]],
+                         # per-chromosome files: every file holds the records of some contigs and its header lists
+                         # only those
+                         "per_contig": src.bool(0.3)}
+        if sc["variant"]["per_contig"]:
+            cn = [c[0] for c in sc["chroms"]]
+            fmap = {c: src.int(0, k - 1) for c in cn}
+            sc["variant"]["assign"] = [fmap.get(r.get("c") or (r.get("placed") or [cn[0]])[0], 0) for r in sc["reads"]]
         sc["opts"] += ["--no_model_construction"]
     return sc
 
@@ -211,6 +218,7 @@ def evaluate(case, ctx):
         else:
             sc2 = copy.deepcopy(sc)
             sc2["nfiles"] = v["k"]
+            sc2["prune_headers"] = bool(v.get("per_contig"))
             for r, fi in zip(sc2["reads"], v["assign"]):
                 r["file"] = fi
             ind = os.path.join(d, "in2")
